@@ -14,6 +14,7 @@ use std::collections::BTreeMap;
 /// alphabet is stable under goal-set changes).
 pub fn alphabet<'a, 'b>(frag: &str, goals: &'a [GoalCtx<'b>], max: usize) -> Vec<&'a GoalCtx<'b>> {
     let wanted: &[&str] = match frag {
+        "f0x" | "f0xco" => &["A: T0", "A: T2", "A: T1", "A: T3", "A: T0, A: T1", "A: T2, A: T0"],
         "f0" | "f0co" => &["A: T0", "A: T1", "A: T0, A: T1", "A: T2", "not { A: T0 }", "if (A: T2) { A: T0 }"],
         "f1b" => &[
             "exists<X0, X1> { X0: R<X1> }",
@@ -156,7 +157,10 @@ pub fn explore(
 
 pub fn run_c10(rep: &Report) -> i32 {
     let thorough = rep.is_thorough();
-    let corpora = core_corpora(thorough, if thorough { 0 } else { 1 });
+    let mut corpora = core_corpora(thorough, if thorough { 0 } else { 1 });
+    if !thorough {
+        corpora.extend(f0x_corpora());
+    }
     let gamma = if thorough { 6 } else { 4 };
     let cfgs = [SolverCfg::SLG, SolverCfg::REC, SolverCfg::REC_NOCACHE];
     for_each_program(rep, &corpora, |pc, goals| {
